@@ -51,22 +51,24 @@ package exprtools
 //@   ensures val(result) == umul(sextw(val(e1), 2*w), sextw(val(e2), 2*w))
 
 //@ func SignedDiv
-//@   enum w in WIDTHS
-//@   input:e1 leaf(w)
-//@   input:e2 leaf(w)
+//@   enum w in WIDTHS, ew in OPWIDTHS
+//@   input:e1 leaf(ew)
+//@   input:e2 leaf(ew)
+//@   requires (width(e1) == w || (width(e1) < w && val(e1) == 0)) && (width(e2) == w || (width(e2) < w && val(e2) == 0))
 //@   ensures width(result) == w
 //@   ensures[by-zero] val(e2) == 0 ==> val(result) == ones(w)
-//@   ensures[overflow] val(e1) == shl(bv(1, 8*w), 8*w-1) && val(e2) == ones(w) ==> val(result) == val(e1)
-//@   ensures[quotient] val(e2) != 0 ==> val(result) == sdivspec(val(e1), val(e2))
+//@   ensures[overflow] sextw(val(e1), w) == shl(bv(1, 8*w), 8*w-1) && sextw(val(e2), w) == ones(w) ==> val(result) == sextw(val(e1), w)
+//@   ensures[quotient] val(e2) != 0 ==> val(result) == sdivspec(sextw(val(e1), w), sextw(val(e2), w))
 
 //@ func SignedMod
-//@   enum w in WIDTHS
-//@   input:e1 leaf(w)
-//@   input:e2 leaf(w)
+//@   enum w in WIDTHS, ew in OPWIDTHS
+//@   input:e1 leaf(ew)
+//@   input:e2 leaf(ew)
+//@   requires (width(e1) == w || (width(e1) < w && val(e1) == 0)) && (width(e2) == w || (width(e2) < w && val(e2) == 0))
 //@   ensures width(result) == w
-//@   ensures[by-zero] val(e2) == 0 ==> val(result) == val(e1)
-//@   ensures[overflow] val(e1) == shl(bv(1, 8*w), 8*w-1) && val(e2) == ones(w) ==> val(result) == 0
-//@   ensures[suite-convention] val(result) == ite(msb(val(e1)) != msb(val(e2)), -urem(absv(val(e1)), absv(val(e2))), urem(absv(val(e1)), absv(val(e2))))
+//@   ensures[by-zero] val(e2) == 0 ==> val(result) == sextw(val(e1), w)
+//@   ensures[overflow] sextw(val(e1), w) == shl(bv(1, 8*w), 8*w-1) && sextw(val(e2), w) == ones(w) ==> val(result) == 0
+//@   ensures[suite-convention] val(result) == ite(msb(val(e1)) != msb(val(e2)), -urem(absv(sextw(val(e1), w)), absv(sextw(val(e2), w))), urem(absv(sextw(val(e1), w)), absv(sextw(val(e2), w))))
 
 //@ func SignExtend
 //@   enum w in WIDTHS, ew in OPWIDTHS
@@ -134,37 +136,37 @@ package exprtools
 //@   enum w in WIDTHS, ew in OPWIDTHS
 //@   input:arg1 leaf(ew)
 //@   input:arg2 leaf(ew)
-//@   input:exprTrue leaf(w)
-//@   input:exprFalse leaf(w)
+//@   input:exprTrue leaf(ew)
+//@   input:exprFalse leaf(ew)
 //@   ensures width(result) == w
-//@   ensures val(result) == ite(ext(val(arg1), w) == ext(val(arg2), w), val(exprTrue), val(exprFalse))
+//@   ensures val(result) == ite(ext(val(arg1), w) == ext(val(arg2), w), ext(val(exprTrue), w), ext(val(exprFalse), w))
 
 //@ func Lts
 //@   enum w in WIDTHS, ew in OPWIDTHS
 //@   input:arg1 leaf(ew)
 //@   input:arg2 leaf(ew)
-//@   input:exprTrue leaf(w)
-//@   input:exprFalse leaf(w)
+//@   input:exprTrue leaf(ew)
+//@   input:exprFalse leaf(ew)
 //@   ensures width(result) == w
-//@   ensures val(result) == ite(slt(ext(val(arg1), w), ext(val(arg2), w)), val(exprTrue), val(exprFalse))
+//@   ensures val(result) == ite(slt(ext(val(arg1), w), ext(val(arg2), w)), ext(val(exprTrue), w), ext(val(exprFalse), w))
 
 //@ func Leu
 //@   enum w in WIDTHS, ew in OPWIDTHS
 //@   input:arg1 leaf(ew)
 //@   input:arg2 leaf(ew)
-//@   input:exprTrue leaf(w)
-//@   input:exprFalse leaf(w)
+//@   input:exprTrue leaf(ew)
+//@   input:exprFalse leaf(ew)
 //@   ensures width(result) == w
-//@   ensures val(result) == ite(ule(ext(val(arg1), w), ext(val(arg2), w)), val(exprTrue), val(exprFalse))
+//@   ensures val(result) == ite(ule(ext(val(arg1), w), ext(val(arg2), w)), ext(val(exprTrue), w), ext(val(exprFalse), w))
 
 //@ func Les
 //@   enum w in WIDTHS, ew in OPWIDTHS
 //@   input:arg1 leaf(ew)
 //@   input:arg2 leaf(ew)
-//@   input:exprTrue leaf(w)
-//@   input:exprFalse leaf(w)
+//@   input:exprTrue leaf(ew)
+//@   input:exprFalse leaf(ew)
 //@   ensures width(result) == w
-//@   ensures val(result) == ite(sle(ext(val(arg1), w), ext(val(arg2), w)), val(exprTrue), val(exprFalse))
+//@   ensures val(result) == ite(sle(ext(val(arg1), w), ext(val(arg2), w)), ext(val(exprTrue), w), ext(val(exprFalse), w))
 
 //@ func MaskBits
 //@   enum w in WIDTHS, ew in OPWIDTHS, cnt in BITCNTS
